@@ -216,14 +216,22 @@ impl ItemOps for u64 {
         if name == "copyslice" { c.copy_slice(d) } else { c.clone_slice(d) }
     }
 }
-impl ItemOps for Owned {
+macro_rules! owned_ops { ($T:ty) => {
+impl ItemOps for $T {
     fn push_slice_op<B: MutRB<Item = Self>>(p: &mut ProdIter<B>, s: &[Self], name: &str) -> Option<()> {
         match name { "pushclone" => p.push_slice_clone(s), "pushcloneinit" => p.push_slice_clone_init(s), _ => unreachable!() }
     }
     fn extract_item_op<B: MutRB<Item = Self>, const W: bool>(c: &mut ConsIter<B, W>, d: &mut Self, _name: &str) -> Option<()> { c.clone_item(d) }
     fn extract_slice_op<B: MutRB<Item = Self>, const W: bool>(c: &mut ConsIter<B, W>, d: &mut [Self], _name: &str) -> Option<()> { c.clone_slice(d) }
 }
-
+impl HeapDefault<$T> for ConcurrentHeapRB<$T> { fn mk_default(_n: usize) -> Self { unreachable!() } }
+impl HeapDefault<$T> for LocalHeapRB<$T> { fn mk_default(_n: usize) -> Self { unreachable!() } }
+#[cfg(not(feature = "vmem"))]
+impl<const N: usize> StackDefault<$T> for ConcurrentStackRB<$T, N> { fn mk_default() -> Self { unreachable!() } }
+#[cfg(not(feature = "vmem"))]
+impl<const N: usize> StackDefault<$T> for LocalStackRB<$T, N> { fn mk_default() -> Self { unreachable!() } }
+}}
+owned_ops!(Owned); owned_ops!(Owned24); owned_ops!(Owned4);
 // the Item trait lives in the library; bridge the per-type operations into it
 trait ItemX: Item + ItemOps {}
 impl<T: Item + ItemOps> ItemX for T {}
@@ -293,8 +301,6 @@ macro_rules! heap_run {
 trait HeapDefault<T> { fn mk_default(n: usize) -> Self; }
 impl HeapDefault<u64> for ConcurrentHeapRB<u64> { fn mk_default(n: usize) -> Self { ConcurrentHeapRB::default(n) } }
 impl HeapDefault<u64> for LocalHeapRB<u64> { fn mk_default(n: usize) -> Self { LocalHeapRB::default(n) } }
-impl HeapDefault<Owned> for ConcurrentHeapRB<Owned> { fn mk_default(_n: usize) -> Self { unreachable!() } }
-impl HeapDefault<Owned> for LocalHeapRB<Owned> { fn mk_default(_n: usize) -> Self { unreachable!() } }
 fn heap_default<T, B: HeapDefault<T>>(n: usize) -> B { B::mk_default(n) }
 
 #[cfg(not(feature = "vmem"))]
@@ -303,10 +309,6 @@ trait StackDefault<T> { fn mk_default() -> Self; }
 impl<const N: usize> StackDefault<u64> for ConcurrentStackRB<u64, N> { fn mk_default() -> Self { Default::default() } }
 #[cfg(not(feature = "vmem"))]
 impl<const N: usize> StackDefault<u64> for LocalStackRB<u64, N> { fn mk_default() -> Self { Default::default() } }
-#[cfg(not(feature = "vmem"))]
-impl<const N: usize> StackDefault<Owned> for ConcurrentStackRB<Owned, N> { fn mk_default() -> Self { unreachable!() } }
-#[cfg(not(feature = "vmem"))]
-impl<const N: usize> StackDefault<Owned> for LocalStackRB<Owned, N> { fn mk_default() -> Self { unreachable!() } }
 #[cfg(not(feature = "vmem"))]
 fn stack_default<T, B: StackDefault<T>>() -> B { B::mk_default() }
 
@@ -394,20 +396,31 @@ fn run_file(path: &str, out: &mut impl Write) {
         let cfg = parse_cfg(&l);
         reset_ledger();
         EXPECT_DROP.with(|c| c.set(false));
-        let owned = cfg.item == "owned";
-        match (cfg.kind.as_str(), cfg.store.as_str(), owned) {
-            ("conc", "heap", false) => heap_run!(ConcurrentHeapRB, u64, &cfg, &mut ls, out),
-            ("local", "heap", false) => heap_run!(LocalHeapRB, u64, &cfg, &mut ls, out),
-            ("conc", "heap", true) => heap_run!(ConcurrentHeapRB, Owned, &cfg, &mut ls, out),
-            ("local", "heap", true) => heap_run!(LocalHeapRB, Owned, &cfg, &mut ls, out),
+        match (cfg.kind.as_str(), cfg.store.as_str(), cfg.item.as_str()) {
+            ("conc", "heap", "plain") => heap_run!(ConcurrentHeapRB, u64, &cfg, &mut ls, out),
+            ("local", "heap", "plain") => heap_run!(LocalHeapRB, u64, &cfg, &mut ls, out),
+            ("conc", "heap", "owned") => heap_run!(ConcurrentHeapRB, Owned, &cfg, &mut ls, out),
+            ("local", "heap", "owned") => heap_run!(LocalHeapRB, Owned, &cfg, &mut ls, out),
+            ("conc", "heap", "owned24") => heap_run!(ConcurrentHeapRB, Owned24, &cfg, &mut ls, out),
+            ("local", "heap", "owned24") => heap_run!(LocalHeapRB, Owned24, &cfg, &mut ls, out),
+            ("conc", "heap", "owned4") => heap_run!(ConcurrentHeapRB, Owned4, &cfg, &mut ls, out),
+            ("local", "heap", "owned4") => heap_run!(LocalHeapRB, Owned4, &cfg, &mut ls, out),
             #[cfg(not(feature = "vmem"))]
-            ("conc", "stack", false) => stack_dispatch!(ConcurrentStackRB, u64, &cfg, &mut ls, out; 0,1,2,3,4,5,7,8,13,16),
+            ("conc", "stack", "plain") => stack_dispatch!(ConcurrentStackRB, u64, &cfg, &mut ls, out; 0,1,2,3,4,5,7,8,13,16),
             #[cfg(not(feature = "vmem"))]
-            ("local", "stack", false) => stack_dispatch!(LocalStackRB, u64, &cfg, &mut ls, out; 0,1,2,3,4,5,7,8,13,16),
+            ("local", "stack", "plain") => stack_dispatch!(LocalStackRB, u64, &cfg, &mut ls, out; 0,1,2,3,4,5,7,8,13,16),
             #[cfg(not(feature = "vmem"))]
-            ("conc", "stack", true) => stack_dispatch!(ConcurrentStackRB, Owned, &cfg, &mut ls, out; 0,1,2,3,4,5),
+            ("conc", "stack", "owned") => stack_dispatch!(ConcurrentStackRB, Owned, &cfg, &mut ls, out; 0,1,2,3,4,5),
             #[cfg(not(feature = "vmem"))]
-            ("local", "stack", true) => stack_dispatch!(LocalStackRB, Owned, &cfg, &mut ls, out; 0,1,2,3,4,5),
+            ("local", "stack", "owned") => stack_dispatch!(LocalStackRB, Owned, &cfg, &mut ls, out; 0,1,2,3,4,5),
+            #[cfg(not(feature = "vmem"))]
+            ("conc", "stack", "owned24") => stack_dispatch!(ConcurrentStackRB, Owned24, &cfg, &mut ls, out; 0,1,2,3,4,5),
+            #[cfg(not(feature = "vmem"))]
+            ("local", "stack", "owned4") => stack_dispatch!(LocalStackRB, Owned4, &cfg, &mut ls, out; 0,1,2,3,4,5),
+            #[cfg(not(feature = "vmem"))]
+            ("conc", "stack", "owned4") => stack_dispatch!(ConcurrentStackRB, Owned4, &cfg, &mut ls, out; 0,1,2,3,4,5),
+            #[cfg(not(feature = "vmem"))]
+            ("local", "stack", "owned24") => stack_dispatch!(LocalStackRB, Owned24, &cfg, &mut ls, out; 0,1,2,3,4,5),
             _ => panic!("unsupported configuration: {l}"),
         }
         EXPECT_DROP.with(|c| c.set(false));
